@@ -24,6 +24,9 @@ def neg_pi_to_pi(angle):
         The angle normalized to :math:`[-\pi, \pi)`
 
     """
+    # Always work in double precision (a single-precision angle would otherwise be wrapped in single precision)
+    angle = np.float64(angle)
+
     return (angle + np.pi) % (TWO_PI) - np.pi
 
 
